@@ -199,6 +199,45 @@ def roundtrip_one(fam, base, plen, port, proto):
     return bad
 
 
+def unaligned_ranges():
+    """address ranges that are not CIDR blocks (another implementation may propose or narrow to them): all (lo, hi) with
+    lo < hi inside a /27 around a /24 border and around a /16 border, plus the examples that cross larger borders"""
+    out = []
+    for fam, texts in ((4, ('10.0.0.240', '10.0.255.240', '10.0.1.96')), (6, ('2001:db8::fff0', '2001:db8:0:0:ffff:ffff:ffff:fff0'))):
+        for text in texts:
+            base = int(ipaddress.ip_address(text))
+            for a in range(0, 32):
+                for b in range(a + 1, 32):
+                    out.append((fam, base + a, base + b))
+        if fam == 4:
+            for lo, hi in (('10.0.1.100', '10.0.1.200'), ('10.0.2.250', '10.0.3.5'), ('10.1.0.100', '10.1.0.150'), ('0.0.0.1', '255.255.255.254')):
+                out.append((4, int(ipaddress.ip_address(lo)), int(ipaddress.ip_address(hi))))
+    return out
+
+
+def unaligned_all(_):
+    """get_network() of a range that is not a block: kernel selectors are prefixes, so the result cannot be exact - but it
+    must at least be a network that contains both ends of the range (anything else covers addresses outside the range
+    while missing some inside it)"""
+    acc = Acc()
+    n = 0
+    for fam, lo, hi in unaligned_ranges():
+        ip = ipaddress.IPv4Address if fam == 4 else ipaddress.IPv6Address
+        n += 1
+        try:
+            ts = TS(TS.Type.TS_IPV4_ADDR_RANGE if fam == 4 else TS.Type.TS_IPV6_ADDR_RANGE, 0, 0, 65535, ip(lo), ip(hi))
+            net = ts.get_network()
+            if ip(lo) not in net or ip(hi) not in net:
+                acc.add('roundtrip:v%d:unaligned-range:network-misses-part-of-the-range' % fam,
+                        'get_network() of %s-%s is %s, which does not contain %s' % (
+                            ip(lo), ip(hi), net, ip(hi) if ip(hi) not in net else ip(lo)),
+                        dict(part='unaligned', case=[fam, lo, hi]))
+        except Exception as ex:   # noqa
+            acc.add('roundtrip:v%d:unaligned-range:raises-%s' % (fam, type(ex).__name__), '%s-%s: %s' % (ip(lo), ip(hi), ex),
+                    dict(part='unaligned', case=[fam, lo, hi]))
+    return n, n, acc.dump()
+
+
 def roundtrip_all(_):
     rt = 0
     acc = Acc()
@@ -217,20 +256,23 @@ def roundtrip_all(_):
 
 def unit_jobs():
     idx = list(range(len(unit_universe()[0])))
-    return [('unit_pairs', idx[i::4]) for i in range(4)] + [('roundtrip_all', None)]
+    return [('unit_pairs', idx[i::4]) for i in range(4)] + [('roundtrip_all', None), ('unaligned_all', None)]
 
 
 def unit_merge(results):
     sels, pkts = unit_universe()
-    n = nontrivial = n_true = blocks = rt = 0
+    n = nontrivial = n_true = blocks = rt = unaligned = 0
     for kind, res in results:
         if kind == 'unit_pairs':
             n, nontrivial, n_true = n + res[0], nontrivial + res[1], n_true + res[2]
             report(res[3])
+        elif kind == 'unaligned_all':
+            unaligned = res[0]
+            report(res[2])
         else:
             blocks, rt = res[0], res[1]
             report(res[2])
-    return dict(selectors=len(sels), packets=len(pkts), pairs=n, pairs_overlapping_and_distinct=nontrivial,
+    return dict(unaligned_ranges=unaligned, selectors=len(sels), packets=len(pkts), pairs=n, pairs_overlapping_and_distinct=nontrivial,
                 pairs_included=n_true, roundtrip_blocks=blocks, roundtrips=rt)
 
 
@@ -1088,6 +1130,8 @@ def replay(path):
         res = [] if got is want else ['differs']
     elif part == 'roundtrip':
         res = roundtrip_one(*doc['case'])
+    elif part == 'unaligned':
+        res = [x for x in unaligned_all(None)[2] if True]
     elif part == 'narrow':
         entries = tuple(((e[0][0], e[0][1]), e[1][0], (e[2][0], e[2][1]), e[3][0], e[4][0]) for e in doc['entries'])
         tsi, tsr = tuple(R.Sel(*s) for s in doc['tsi']), tuple(R.Sel(*s) for s in doc['tsr'])
@@ -1141,7 +1185,7 @@ def main():
     cpu = {}
     by = {}
     for kind, res, t in done:
-        part = {'unit_pairs': 'unit', 'roundtrip_all': 'unit', 'narrow_group': 'narrow', 'e2e_group': 'e2e',
+        part = {'unit_pairs': 'unit', 'roundtrip_all': 'unit', 'unaligned_all': 'unit', 'narrow_group': 'narrow', 'e2e_group': 'e2e',
                 'tamper_group': 'tamper'}[kind]
         by.setdefault(part, []).append((kind, res))
         cpu[part] = round(cpu.get(part, 0) + t, 1)
